@@ -63,7 +63,10 @@ CLAIM = {
             'generated_fill_reads_match_model (the lazy caches of the source are the model\'s; dependency closures '
             'agree with Coherent / FullFDerived) and generated_effects_sufficient (on the GENERATED tables: whoever '
             'writes an attribute resets or rewrites on every normal path every cached attribute whose dependency '
-            'closure contains it - all entry points of all classes incl. _updateF / _updateW / solve).',
+            'closure contains it - all entry points of all classes incl. _updateF / _updateW / solve); '
+            'generated_tables_preserve_coherence states what that condition means without reference to the hand model '
+            '(any value type, any coherence relations that read only the dependency closure); '
+            'model_effect_table_is_tight (every listed write really happens on a concrete probe).',
     'note': 'Regeneration tie - trusted: harness/gen/_effects.py (abstract interpretation of the method bodies: last '
             'write per attribute over all normal exits, loops to a fixpoint, try/except, helper / property / super() '
             'inlining along the MRO, dict-of-bound-methods dispatch of _solve_init as a join over the referenced '
